@@ -312,7 +312,7 @@ def run_case(rng, tier, res):
             if st["abort"]:
                 break
             n = rng.choice(LENGTHS) if rng.random() < 0.75 else rng.randint(0, 70)
-            if tier == "thorough" and rng.random() < 0.02:
+            if rng.random() < (0.02 if tier == "thorough" else 0.008):   # both tiers: maximum-size boundaries
                 n = rng.choice([511, 512, 513, 1023, 1024])          # high-speed bulk / isochronous sizes
             payload = gen_payload(rng, n)
             pid = rng.randrange(4)
